@@ -35,7 +35,7 @@ PROP = dict(
           "^\\d{8}\\.[1-9]\\d*$, are pairwise distinct and increase within a day. Non-trivial = the fault strikes after at least one "
           "complete benchmark line of the failing upload was delivered (at least one record handed to the database layer), or (ID units) "
           "the history crosses a UTC midnight or contains an aborted upload, or (concurrency) >= 2 goroutines obtained >= 2 IDs. "
-          "Faults include a file with a line of more than 64 KiB (either outcome, never a partial 2xx); after every step each successful upload is queried through each of its labels, including those derived from benchmark names (name, gomaxprocs, sub<i>, key=value parts; names with a dash before the -N suffix are in the pool); label lines aligned with tabs, benchmark lines separated by tabs only, per cent signs in file and user names; a quarter of the jumping ID histories have a clock that also steps back (creation may be refused, IDs never repeat, committed uploads keep their records). Distinct = distinct case JSON (64-bit FNV)."),
+          "Faults include a file with a line of more than 64 KiB (either outcome, never a partial 2xx); after every step each successful upload is queried through each of its labels, including those derived from benchmark names (name, gomaxprocs, sub<i>, key=value parts; names with a dash before the -N suffix are in the pool); a file ending in a benchmark whose name part repeats a label key (the database refuses the record at commit: either outcome, never a partial commit); label lines aligned with tabs, benchmark lines separated by tabs only, per cent signs in file and user names; a quarter of the jumping ID histories have a clock that also steps back (creation may be refused, IDs never repeat, committed uploads keep their records). Distinct = distinct case JSON (64-bit FNV)."),
     assumptions=[
         "single faults only: one failing file-store call / one truncation / one invalid file / one stray field / one abort per upload",
         "goroutine schedules are sampled (repetition, GOMAXPROCS 1-16, race detector), not enumerated",
